@@ -87,11 +87,26 @@ def run(rep):
         rep.check('R06.a', 'writer::%s::%s' % (fi.key, norm(e.node)[:80]), ok,
                   'documented set-up write of the routing table' if ok else
                   '%s writes a routing table (%s): routes may be reordered / removed after insertion' % (fi.key, short(e.node)), m, e.node)
+    check_running_index(rep, 'R06.a')
+    it = norm(dv.loop.iter)
+    ok = it in ('self.routes + [self._null_route]', 'itertools.chain(self.routes, [self._null_route])', 'chain(self.routes, [self._null_route])')
+    rep.check('R06.a', fkey(f, 'iteration'), ok, 'dispatch walks self.routes in list order, then the null route' if ok else
+              'dispatch does not iterate self.routes + [null route] directly: %s' % it, app, dv.loop)
+    rep.floor('R06.a', 5)
+    _rest(rep, repo, app, route, err, dv, cfg, f)
+
+
+def check_running_index(rep, rule):
+    repo = rep.repo
+    app = repo.mod(APP)
     ad = app.func('Application.add')
     acfg = cfg_of(ad)
-    ins = [c for c in walk_body(ad.node) if isinstance(c, ast.Call) and norm(c.func) == 'self.routes.insert']
-    if len(ins) != 1:
-        raise AnalysisError('Application.add: expected exactly one self.routes.insert')
+    ins = [c for c in walk_body(ad.node) if isinstance(c, ast.Call) and norm(c.func).startswith('self.routes.') and
+           call_tail(c) in ('insert', 'append', 'extend')]
+    if len(ins) != 1 or call_tail(ins[0]) != 'insert':
+        rep.fail(rule, fkey(ad, 'single insert'), 'Application.add does not place routes with exactly one self.routes.insert(index, route) '
+                 '(found %s): position / order of the inserted routes is not the running index' % [short(c) for c in ins], app, ad.node)
+        return
     idx = norm(ins[0].args[0])
     ins_st = stmt_of(app, ins[0])
     loop = [s for s in stmts_of(ad.node) if isinstance(s, ast.For) and ins_st in s.body]
@@ -99,18 +114,15 @@ def run(rep):
             and isinstance(s.value, ast.Constant) and s.value.value == 1]
     ok = len(loop) == 1 and len(incs) == 1 and incs[0] in loop[0].body and loop[0].body.index(incs[0]) > loop[0].body.index(ins_st) \
         and all(isinstance(b, (ast.Expr, ast.AugAssign)) for b in loop[0].body)
-    rep.check('R06.a', fkey(ad, 'running index'), ok, 'routes of one add() are inserted contiguously at index, index+1, ...' if ok else
+    rep.check(rule, fkey(ad, 'running index'), ok, 'routes of one add() are inserted contiguously at index, index+1, ...' if ok else
               'add() does not insert at a running index (routes of one entry are reversed or interleaved)', app, ins_st)
     dflt = [s for s in stmts_of(ad.node) if isinstance(s, ast.Assign) and norm(s.targets[0]) == idx]
     ok = len(dflt) == 1 and norm(dflt[0].value) == 'len(self.routes)' and has_cond(conds(ad, dflt[0]), lambda t: norm(t) == '%s is None' % idx, True)
-    rep.check('R06.a', fkey(ad, 'default index'), ok, 'without an index, routes are appended (index = len(self.routes))' if ok else
+    rep.check(rule, fkey(ad, 'default index'), ok, 'without an index, routes are appended (index = len(self.routes))' if ok else
               'default insertion index is not len(self.routes)', app, dflt[0] if dflt else ad.node)
-    it = norm(dv.loop.iter)
-    ok = it in ('self.routes + [self._null_route]', 'itertools.chain(self.routes, [self._null_route])', 'chain(self.routes, [self._null_route])')
-    rep.check('R06.a', fkey(f, 'iteration'), ok, 'dispatch walks self.routes in list order, then the null route' if ok else
-              'dispatch does not iterate self.routes + [null route] directly: %s' % it, app, dv.loop)
-    rep.floor('R06.a', 5)
 
+
+def _rest(rep, repo, app, route, err, dv, cfg, f):
     # ---- R06.b -----------------------------------------------------------
     head = dv.head
     # (i) no effect before the path test
